@@ -255,6 +255,10 @@ def k_trajectory(params):
     traj = sysm.propagate(y0, tf=params["tf"], steps=params["steps"], method=method, order=order)
     S = np.asarray(traj.states)
     viol = []
+    dmin = min(float(np.min(np.sqrt((S[:, 0] + mu) ** 2 + S[:, 1] ** 2 + S[:, 2] ** 2))), float(np.min(np.sqrt((S[:, 0] - 1 + mu) ** 2 + S[:, 1] ** 2 + S[:, 2] ** 2))))
+    if dmin < 0.05:
+        # the statement is about states away from the primaries: an arc that passes one within 0.05 is outside it (integration accuracy is lost there)
+        return res(evals=len(S), nontrivial=0, stats={"trajectories_skipped_close_approach": 1}, sample={"mu": mu, "method": method, "order": order, "skipped": "passes a primary within %.3f" % dmin})
     E = np.array([en.crtbp_energy(s, mu) for s in S])
     C = np.array([_jacobi_ref(s, mu) for s in S])
     dE = float(np.max(np.abs(E - E[0])))
@@ -322,6 +326,8 @@ def cases(tier, seed):
     seeds = [[0.82, 0.05, 0.08, 0.05, 0.12, 0.1], [0.3, 0.4, 0.25, -0.3, 0.5, -0.2], [-0.9, 0.1, -0.3, 0.05, -0.3, 0.15]]
     for mu in ([0.01215] if tier == "quick" else [0.01215, 0.1]):
         for y0 in seeds:
+            if mu > 0.05 and abs(y0[0] - 0.82) < 1e-9:
+                y0 = [0.55] + y0[1:]      # the Earth-Moon L1-side seed would fly by the secondary of a mu=0.1 system
             for method, order in (("fixed", 4), ("fixed", 6), ("fixed", 8), ("adaptive", 5), ("adaptive", 8)):
                 out.append(("trajectory", {"mu": mu, "y0": [y0[0] + 0.01 * o[2]] + y0[1:], "tf": 2.0, "steps": 2001, "method": method, "order": order, "tol": 1e-7}))
         out.append(("objects", {"mu": mu, "states": [[0.82, 0.0, 0.1, 0.0, 0.15, 0.05], [0.85, 0.02, -0.2, 0.1, 0.1, -0.3], [0.8, 0.0, 0.0, 0.0, 0.2, 0.0]]}))
